@@ -16,6 +16,25 @@ import paho.mqtt.client as mqtt
 from vlib import impl, model
 
 TAG = "session2"
+EXTRACT_TAGS = ["session2", "mid"]
+RULE = ("corpus of repaired-defect witnesses and of blocked-transport scenarios first (among them the scenario of seeded defect "
+        "S-C01-1: send blocks, QoS 1 and 2 publishes accepted, loss, reconnect, unblock, CONNACK, acks); exhaustive operation "
+        "sequences of length 3 (quick) / 3 and 4 (thorough) over 16 operations (publish q1/q2, reconnect ok/fail, loss, CONNACK, "
+        "PUBACK/PUBREC/PUBCOMP for ids 1..2, inbound PUBLISH q2, PUBREL, transport blocks, transport accepts again) after "
+        "state-building prefixes (window full, message past PUBREC, failed reconnect pending, packets sitting in _out_packet); "
+        "seeded random mostly-conforming histories of length 6..60 in which the transport changes its mind with probability "
+        "0..25% per step; histories across the 16-bit id wrap. Every history runs on the real client and on the extracted model: "
+        "per operation the events (hand-overs to _out_packet, writes, callbacks, MQTTMessageInfo changes) and the state "
+        "(message stores, _out_packet with kinds/ids/flags/info, blocked flag) are compared, and the implementation trace is "
+        "judged by the extracted checkers. distinct = distinct (config, implementation trace); non-trivial = the trace hands "
+        "over or writes at least one PUBLISH/PUBREL with QoS>0")
+ASSUMPTIONS = [
+    "a transport that refuses writes refuses the whole packet (partial writes and fragmentation are C05/C06)",
+    "broker conformance as defined by Session2/Model.conforming (CONNACK first and once per connection; PUBACK/PUBREC/PUBCOMP only "
+    "for a message in the matching wait state whose PUBLISH/PUBREL has been WRITTEN, or for an unknown id)",
+    "callbacks on_publish/on_connect do not raise; no network thread, no on_socket_register_write callback, API calls are not "
+    "nested inside callbacks (C07/C18 cover those)",
+]
 ST = {mqtt.mqtt_ms_publish: 1, mqtt.mqtt_ms_wait_for_puback: 2, mqtt.mqtt_ms_wait_for_pubrec: 3,
       mqtt.mqtt_ms_resend_pubrel: 4, mqtt.mqtt_ms_wait_for_pubcomp: 5, mqtt.mqtt_ms_queued: 6}
 PROPS = ["C01", "C02", "C03", "C12w", "C12h", "C12q", "C13", "C13h", "FIFO"]
@@ -678,18 +697,30 @@ def standard_run(ctx, out, prop_keys, label, conforming=True):
         out.sample({"cfg": corpus[0][0], "ops": corpus[0][1], "impl_events_per_op": [e for e, _ in r]})
     # 2. exhaustive small scope: every sequence of L operations after each of several prefixes that
     #    set up interesting states (window full, message past PUBREC, failed reconnect pending)
-    L = 3 if ctx.quick else 4
-    cfgs = CFGS[:2] if ctx.quick else CFGS[:4]
-    # quick: the empty state, a full window, packets sitting in the output queue
-    prefixes = [PREFIXES[0], PREFIXES[2], PREFIXES[5]] if ctx.quick else PREFIXES
-    ex = list(exhaustive_cases(L, cfgs, prefixes))
-    if ctx.scale > 1:
-        ex = []
-    for i in range(0, len(ex), 4000):
-        run_cases(ex[i:i + 4000], out, prop_keys, label)
-    out.stats["exhaustive_len"] = L
-    out.stats["exhaustive_prefixes"] = len(prefixes)
-    out.stats["exhaustive_cases"] = len(ex)
+    #    (16 operations: the 14 of harness/session.py plus block / unblock).
+    #    quick: length 3 after the empty state, a full window, packets sitting in the output queue (2 configurations);
+    #    thorough: length 3 after every prefix (4 configurations) and length 4 after the three quick prefixes (2 configurations)
+    quick_prefixes = [PREFIXES[0], PREFIXES[2], PREFIXES[5]]
+    if ctx.quick:
+        plans = [(3, CFGS[:2], quick_prefixes)]
+    else:
+        plans = [(3, CFGS[:4], PREFIXES), (4, CFGS[:2], quick_prefixes)]
+    nex = 0
+    for L, cfgs, prefixes in plans:
+        if ctx.scale > 1:
+            break
+        chunk = []
+        for case in exhaustive_cases(L, cfgs, prefixes):
+            chunk.append(case)
+            if len(chunk) == 4000:
+                run_cases(chunk, out, prop_keys, label)
+                nex += len(chunk)
+                chunk = []
+        run_cases(chunk, out, prop_keys, label)
+        nex += len(chunk)
+    out.stats["exhaustive_len"] = max(p[0] for p in plans)
+    out.stats["exhaustive_prefixes"] = len(PREFIXES) if not ctx.quick else len(quick_prefixes)
+    out.stats["exhaustive_cases"] = nex
     # 3. seeded random, mostly conforming
     nrand = ctx.n(250, 4000)
     cases = []
